@@ -2,6 +2,7 @@
 Helper lemmas for C20: splitting and joining names at dots.
 -/
 import PvModel.AdmitSpec
+import Mathlib.Tactic.SplitIfs
 
 namespace PvProofs.AdmitL
 open PvModel PvModel.Admit
@@ -76,5 +77,192 @@ theorem joinDots_ne_nil {segs : List (List Char)} (hne : segs ≠ []) (hs : ∀ 
     cases rest with
     | nil => simpa [joinDots] using this
     | cons t rest => simp [joinDots, this]
+
+/-! ### `strings.Join(strings.Split(s, "."), ".") = s` and the segments of a split -/
+
+theorem joinDots_splitDots (s : List Char) : joinDots (splitDots s) = s := by
+  induction s with
+  | nil => simp [splitDots, joinDots]
+  | cons c cs ih =>
+    have hne := splitDots_ne_nil cs
+    by_cases h : c = '.'
+    · simp only [splitDots, h, if_true]
+      cases hs : splitDots cs with
+      | nil => exact absurd hs hne
+      | cons t rest => rw [hs] at ih; simp [joinDots, ih]
+    · simp only [splitDots, h, if_false]
+      cases hs : splitDots cs with
+      | nil => exact absurd hs hne
+      | cons t rest =>
+        rw [hs] at ih
+        cases rest with
+        | nil => simpa [joinDots] using ih
+        | cons u rest => simp only [joinDots] at ih ⊢; simp [ih]
+
+theorem splitDots_dotfree_segs (s : List Char) : ∀ seg ∈ splitDots s, '.' ∉ seg := by
+  induction s with
+  | nil => simp [splitDots]
+  | cons c cs ih =>
+    have hne := splitDots_ne_nil cs
+    by_cases h : c = '.'
+    · simp only [splitDots, h, if_true]
+      intro seg hseg
+      rcases List.mem_cons.1 hseg with rfl | hseg
+      · simp
+      · exact ih seg hseg
+    · simp only [splitDots, h, if_false]
+      cases hs : splitDots cs with
+      | nil => exact absurd hs hne
+      | cons t rest =>
+        rw [hs] at ih
+        intro seg hseg
+        rcases List.mem_cons.1 hseg with rfl | hseg
+        · simp only [List.mem_cons, not_or]
+          exact ⟨fun e => h e.symm, ih t List.mem_cons_self⟩
+        · exact ih seg (List.mem_cons_of_mem _ hseg)
+
+/-! ### ASCII lower-casing (`Char.toLower`) -/
+
+theorem toLower_val (c : Char) :
+    c.toLower.val.toNat =
+      if 65 ≤ c.val.toNat ∧ c.val.toNat ≤ 90 then c.val.toNat + 32 else c.val.toNat := by
+  have e1 : 'A'.val.toNat = 65 := by decide
+  have e2 : 'Z'.val.toNat = 90 := by decide
+  unfold Char.toLower
+  split
+  · rename_i h
+    have h1 := UInt32.le_iff_toNat_le.1 h.1
+    have h2 := UInt32.le_iff_toNat_le.1 h.2
+    have e3 : ('a'.val - 'A'.val).toNat = 32 := by decide
+    rw [e1] at h1; rw [e2] at h2
+    simp only [UInt32.toNat_add, e3]
+    rw [if_pos ⟨h1, h2⟩]
+    omega
+  · rename_i h
+    have : ¬ (65 ≤ c.val.toNat ∧ c.val.toNat ≤ 90) := by
+      intro ⟨a, b⟩
+      exact h ⟨UInt32.le_iff_toNat_le.2 (by rw [e1]; exact a), UInt32.le_iff_toNat_le.2 (by rw [e2]; exact b)⟩
+    rw [if_neg this]
+
+theorem char_eq_of_toNat {c d : Char} (h : c.val.toNat = d.val.toNat) : c = d :=
+  Char.ext (UInt32.toNat_inj.1 h)
+
+theorem toLower_toLower (c : Char) : c.toLower.toLower = c.toLower := by
+  apply char_eq_of_toNat
+  rw [toLower_val c.toLower, toLower_val c]
+  split_ifs <;> omega
+
+/-- lower-casing neither makes nor removes a character below `A` (space, dot, star, digits) -/
+theorem toLower_eq_small {c t : Char} (ht : t.val.toNat < 65) : c.toLower = t ↔ c = t := by
+  constructor
+  · intro h
+    apply char_eq_of_toNat
+    have := congrArg (fun x => x.val.toNat) h
+    simp only [toLower_val] at this
+    split_ifs at this <;> omega
+  · rintro rfl
+    apply char_eq_of_toNat
+    rw [toLower_val]
+    split_ifs <;> omega
+
+theorem toLower_eq_space (c : Char) : c.toLower = ' ' ↔ c = ' ' := toLower_eq_small (by decide)
+theorem toLower_eq_dot (c : Char) : c.toLower = '.' ↔ c = '.' := toLower_eq_small (by decide)
+
+/-! ### Trimming -/
+
+def isSp (c : Char) : Bool := decide (c = ' ')
+
+theorem trimSpaces_eq (s : List Char) :
+    trimSpaces s = ((s.dropWhile isSp).reverse.dropWhile isSp).reverse := rfl
+
+theorem dropWhile_dropWhile {α} (p : α → Bool) (l : List α) :
+    (l.dropWhile p).dropWhile p = l.dropWhile p := by
+  induction l with
+  | nil => rfl
+  | cons a l ih =>
+    by_cases h : p a = true
+    · simp [List.dropWhile, h, ih]
+    · simp [List.dropWhile, h]
+
+/-- dropping from the end keeps a list whose head stays -/
+theorem dropWhile_revDrop {α} (p : α → Bool) (l : List α) (h : l.dropWhile p = l) :
+    ((l.reverse.dropWhile p).reverse).dropWhile p = (l.reverse.dropWhile p).reverse := by
+  have hsplit : l = (l.reverse.dropWhile p).reverse ++ (l.reverse.takeWhile p).reverse := by
+    have := congrArg List.reverse (List.takeWhile_append_dropWhile (p := p) (l := l.reverse))
+    rw [List.reverse_append, List.reverse_reverse] at this
+    exact this.symm
+  generalize (l.reverse.dropWhile p).reverse = X at hsplit ⊢
+  generalize (l.reverse.takeWhile p).reverse = T at hsplit
+  cases X with
+  | nil => rfl
+  | cons x X' =>
+    subst hsplit
+    by_cases hx : p x = true
+    · exfalso
+      have hlen := congrArg List.length h
+      simp only [List.cons_append, List.dropWhile_cons, hx, if_true, List.length_cons] at hlen
+      have := (List.dropWhile_sublist p (l := X' ++ T)).length_le
+      omega
+    · simp [List.dropWhile, hx]
+
+theorem trimSpaces_idem (s : List Char) : trimSpaces (trimSpaces s) = trimSpaces s := by
+  simp only [trimSpaces_eq]
+  have h1 := dropWhile_revDrop isSp (s.dropWhile isSp) (dropWhile_dropWhile _ _)
+  rw [h1, List.reverse_reverse, dropWhile_dropWhile]
+
+theorem isSp_comp_toLower : (isSp ∘ Char.toLower) = isSp := by
+  funext c
+  simp only [Function.comp, isSp]
+  rw [decide_eq_decide]
+  exact toLower_eq_space c
+
+theorem trimSpaces_map_toLower (s : List Char) :
+    trimSpaces (s.map Char.toLower) = (trimSpaces s).map Char.toLower := by
+  simp only [trimSpaces_eq, List.dropWhile_map, isSp_comp_toLower, ← List.map_reverse]
+
+theorem trimSpaces_sublist_mem {s : List Char} {c : Char} (h : c ∈ trimSpaces s) : c ∈ s := by
+  rw [trimSpaces_eq, List.mem_reverse] at h
+  have := (List.dropWhile_sublist isSp).mem h
+  rw [List.mem_reverse] at this
+  exact (List.dropWhile_sublist isSp).mem this
+
+/-! ### `NormalizeName`: per segment, trim and lower-case -/
+
+/-- what `NormalizeName` does to one segment -/
+def normSeg (seg : List Char) : List Char := (trimSpaces seg).map Char.toLower
+
+theorem normalizeNameL_eq (s : List Char) :
+    normalizeNameL s = joinDots ((splitDots s).map normSeg) := rfl
+
+theorem normSeg_idem (seg : List Char) : normSeg (normSeg seg) = normSeg seg := by
+  unfold normSeg
+  rw [trimSpaces_map_toLower, trimSpaces_idem, List.map_map]
+  apply List.map_congr_left
+  intro c _
+  exact toLower_toLower c
+
+theorem normSeg_dotfree {seg : List Char} (h : '.' ∉ seg) : '.' ∉ normSeg seg := by
+  unfold normSeg
+  intro hm
+  obtain ⟨c, hc, he⟩ := List.mem_map.1 hm
+  rw [(toLower_eq_dot c).1 he] at hc
+  exact h (trimSpaces_sublist_mem hc)
+
+/-- **The segments of a normalised name are the normalised segments of the name.** -/
+theorem splitDots_normalizeNameL (s : List Char) :
+    splitDots (normalizeNameL s) = (splitDots s).map normSeg := by
+  rw [normalizeNameL_eq]
+  apply splitDots_joinDots
+  · simpa using splitDots_ne_nil s
+  · intro seg hseg
+    obtain ⟨t, ht, rfl⟩ := List.mem_map.1 hseg
+    exact normSeg_dotfree (splitDots_dotfree_segs s t ht)
+
+theorem normalizeNameL_idem (s : List Char) : normalizeNameL (normalizeNameL s) = normalizeNameL s := by
+  rw [normalizeNameL_eq (normalizeNameL s), splitDots_normalizeNameL, List.map_map, normalizeNameL_eq]
+  congr 1
+  apply List.map_congr_left
+  intro seg _
+  exact normSeg_idem seg
 
 end PvProofs.AdmitL
